@@ -104,6 +104,17 @@ class AH:
                 self.reg(s.op(A, 'fapply', 'not', a, None), T.neg(self.live[a], n), '~')
             else:
                 self.reg(s.op(A, 'fapply', o, a, c), gen.conn(o, self.live[a], self.live[c], full), o)
+        elif k < 0.44:
+            # formulas from a small pool, so that the SAME text is added again later,
+            # after its first result was dropped and collected and its number re-used
+            from ..impl import Spellings
+            pool = [(['v0', '/\\', 'v1'], T.var(0, n) & T.var(1 % n, n)),
+                    (['v0', '\\/', '~', 'v1'], T.var(0, n) | T.neg(T.var(1 % n, n), n)),
+                    (['v1', '#', 'v0'], T.var(1 % n, n) ^ T.var(0, n)),
+                    (['~', 'v0'], T.neg(T.var(0, n), n))]
+            sp, e = rng.choice(pool)
+            sp = [t if not t.startswith('v') else f'v{int(t[1:]) % n}' for t in sp]
+            self.reg(s.op(A, 'add_expr', Spellings(sp)), e, 'add_expr ' + ' '.join(sp))
         elif k < 0.46:
             # read-only queries through the wrapper (count; the harness also creates
             # pick / pick_iter iterators that are dropped unused, half-used and used)
@@ -232,9 +243,47 @@ def reuse(ctx, opA, opB, opC):
         h.finish()
 
 
+def expr_reuse(ctx, t1, t2, order):
+    """the same formula TEXT added twice: its first result is dropped and collected, other
+    formulas take the freed numbers, then the text is added again (nothing the wrapper
+    remembers about a text may outlive the node)"""
+    from ..impl import Spellings
+    n = 3
+    h = AH(ctx, f'autoref same text twice {" ".join(t1[0])} | {" ".join(t2[0])} order={order}', n,
+           reordering=False)
+    s, A = h.s, h.A
+    if tuple(order) != (0, 1, 2):
+        s.op(A, 'reorder', dict(zip(range(n), order)))
+    a = h.reg(s.op(A, 'add_expr', Spellings(t1[0])), t1[1], 'first time')
+    h.observe()
+    if a is not None:
+        s.op(A, 'drop', a)
+        h.live.pop(a, None)
+    s.op(A, 'gc')
+    h.observe()
+    b = h.reg(s.op(A, 'add_expr', Spellings(t2[0])), t2[1], 'other formula')
+    c = h.reg(s.op(A, 'add_expr', Spellings(t1[0])), t1[1], 'the same text again, after its node was freed')
+    h.observe()
+    ctx.case(('autoref-text-twice', tuple(t1[0]), tuple(t2[0]), tuple(order)), True)
+    ctx.count('text-twice')
+    if h.ok:
+        h.finish()
+
+
 def run(ctx):
     q = ctx.quick
     ops = ['and', 'or', 'implies', 'equiv']
+    n3 = 3
+    texts = [(['v0', '/\\', 'v1'], T.var(0, n3) & T.var(1, n3)),
+             (['v1', '\\/', 'v2'], T.var(1, n3) | T.var(2, n3)),
+             (['~', '(', 'v0', '#', 'v2', ')'], T.neg(T.var(0, n3) ^ T.var(2, n3), n3)),
+             (['v0', '=>', '(', 'v1', '/\\', '~', 'v2', ')'],
+              T.neg(T.var(0, n3), n3) | (T.var(1, n3) & T.neg(T.var(2, n3), n3))),
+             (['ite', '(', 'v2', ',', 'v0', ',', 'v1', ')'], T.ite(T.var(2, n3), T.var(0, n3), T.var(1, n3), n3))]
+    for i, t1 in enumerate(texts):
+        for j, t2 in enumerate(texts):
+            if i != j and (not q or (i + j) % 2):
+                expr_reuse(ctx, t1, t2, ctx.rng.choice(gen.orders(3)))
     for opA in ops:
         for opB in ops:
             for opC in (['and', 'or'] if q else ops):
